@@ -1,5 +1,8 @@
 /* C19: instantiations of the real error macros (see contracts/err.h). */
 #define VC_CUSTOM_LONGJMP
+#if defined(VC_UNIT_try2_swallow) || defined(VC_UNIT_try2_rethrow)
+#define VC_CUSTOM_SETJMP
+#endif
 #include "vc_stubs.h"
 #include "err.h"
 /* the real relic_err.c (err_get_code, err_get_msg); its stderr printers are renamed, the no-op stubs stay in force */
@@ -12,6 +15,16 @@
 int g_body[4], g_fin[4], g_catch[4], g_after;
 err_t g_err[4];
 int g_jmp_code_ok, g_jmp_err_ok, g_expect_e;
+sts_t *g_outer_frame;
+
+#ifdef VC_CUSTOM_SETJMP
+/* SECOND RETURN of setjmp, modelled by a scripted return value: the k-th setjmp call returns g_sj[k]; 1 stands for "control
+   came back here through longjmp from somewhere inside the block" (the block's body is then not executed, exactly as in the
+   real second return).  What is assumed: longjmp transfers control to the matching setjmp with value 1 and the frame's
+   non-volatile locals (_last, _this) as they were at the first return - guaranteed by C for objects not modified in between. */
+int g_sj[4]; int g_sj_n;
+int _setjmp(jmp_buf env) { (void)env; int r = g_sj[g_sj_n & 3]; g_sj_n++; return r; }
+#endif
 
 /* longjmp stub for these units: checks the state at the jump, then ends the path */
 void longjmp(jmp_buf env, int val) {
@@ -19,8 +32,16 @@ void longjmp(jmp_buf env, int val) {
 	__CPROVER_assert(g_may_throw, "throw only where the contract under proof admits an error exit");
 	__CPROVER_assert(g_ctx.code == RLC_ERR, "sticky code is RLC_ERR at the jump");
 	__CPROVER_assert(g_ctx.last != NULL && g_ctx.last->block == 1 && (void *)env == (void *)g_ctx.last->addr, "jump target is the innermost protected block");
+#ifdef VC_UNIT_try2_rethrow
+	/* the inner handler re-throws: the inner block has been left, so its finaliser must have run exactly once already, its
+	   handler exactly once, and the chain must point at the OUTER frame again */
+	__CPROVER_assert(g_fin[1] == 1 && g_catch[1] == 1 && g_fin[0] == 0 && g_catch[0] == 0, "finaliser of the exited inner block ran exactly once before the re-throw leaves it");
+	__CPROVER_assert(g_ctx.last == g_outer_frame, "handler chain restored to the enclosing block before the re-throw");
+	VC_CANARY();
+#else
 	__CPROVER_assert(g_ctx.last->error == &g_err[1] && g_err[1] == g_expect_e, "the catching block's error variable carries the thrown code");
 	__CPROVER_assert(g_body[0] == 1 && g_body[1] == 1 && g_after == 0, "both bodies entered once, nothing after the throw has run");
+#endif
 #ifdef VC_UNIT_try2_throw
 	VC_CANARY();      /* vacuity guard of the throw unit: the jump is reached */
 #endif
@@ -86,6 +107,45 @@ void vc_try2_throw(int e) {
 	}
 }
 
+/* inner block entered through the second return of its setjmp (a throw somewhere inside it); its handler swallows */
+void vc_try2_swallow(void) {
+	RLC_TRY {
+		g_body[0]++;
+		RLC_TRY {
+			g_body[1]++;
+		} RLC_CATCH_ANY {
+			g_catch[1]++;
+		} RLC_FINALLY {
+			g_fin[1]++;
+		}
+		g_after++;
+	} RLC_CATCH_ANY {
+		g_catch[0]++;
+	} RLC_FINALLY {
+		g_fin[0]++;
+	}
+}
+/* same, but the inner handler re-throws (the library's dominant idiom) */
+void vc_try2_rethrow(void) {
+	RLC_TRY {
+		g_body[0]++;
+		g_outer_frame = g_ctx.last;
+		RLC_TRY {
+			g_body[1]++;
+		} RLC_CATCH_ANY {
+			g_catch[1]++;
+			RLC_THROW(ERR_CAUGHT);
+		} RLC_FINALLY {
+			g_fin[1]++;
+		}
+		g_after++;
+	} RLC_CATCH_ANY {
+		g_catch[0]++;
+	} RLC_FINALLY {
+		g_fin[0]++;
+	}
+}
+
 int nondet_int(void);
 #define H(name, call) void h_##name(void) { vc_ctx_havoc(); call; VC_CANARY(); }
 #ifdef VC_UNIT_err_get_code
@@ -102,4 +162,10 @@ H(try3, vc_try3())
 #endif
 #ifdef VC_UNIT_try2_throw
 void h_try2_throw(void) { vc_ctx_havoc(); g_may_throw = 1; vc_try2_throw(nondet_int()); }
+#endif
+#ifdef VC_UNIT_try2_swallow
+void h_try2_swallow(void) { vc_ctx_havoc(); g_sj_n = 0; g_sj[0] = 0; g_sj[1] = nondet_int() ? 1 : 0; g_sj[2] = 0; g_sj[3] = 0; vc_try2_swallow(); VC_CANARY(); }
+#endif
+#ifdef VC_UNIT_try2_rethrow
+void h_try2_rethrow(void) { vc_ctx_havoc(); g_may_throw = 1; g_ctx.code = RLC_ERR; g_sj_n = 0; g_sj[0] = 0; g_sj[1] = 1; g_sj[2] = 0; g_sj[3] = 0; vc_try2_rethrow(); }
 #endif
